@@ -40,7 +40,7 @@ func (check) Cases(tier string) int {
 }
 
 func (check) Rule() string {
-	return "one data tree per case (top-level dictionary, keys a,b,c repeated at every depth, depth 3 (1/8: 5), lists up to 3 (1/8: 6) wide, leaves from gen.Prims plus Go ints/uints/floats of all widths, nil, {}, []) given (1) in ~13 Go representations (map[string]interface{}, map[interface{}]interface{}, reflect.StructOf structs with tags / inline groups, map[string]T, []T, [N]T, *[N]T, typed maps of maps, pointers and pointers to pointers, *Config built from another representation, a Child handle, maps holding *Config values, a per-node random mixture), with and without PathSep; (2) unpacked into map[string]interface{} and fed back (canonical equality and VerifWalk structure equality); (3) in ~4 random partial flattenings into dotted keys (each dictionary edge folded or nested, sub-trees split over several dotted keys and a nested rest, dotted keys inside nested maps, complete lists spelled by numeric positions) carried by maps, interface-keyed maps, typed maps, struct tags and mixtures; (4) in 2 map-carried duplicate constructions (one leaf dotted and nested; two partial spellings; dotted key below a primitive; dotted list position plus the list) each built 40 times with permuted insertion order, and 1 deterministic struct-carried duplicate (same tag twice, inline struct/map vs named field, dotted tag vs nested field; both declaration orders). Non-trivial = tree with >= 2 container levels and >= 3 primitive leaves; distinct = distinct tree."
+	return "one data tree per case (top-level dictionary, keys a,b,c repeated at every depth, depth 3 (1/8: 5), lists up to 3 (1/8: 6) wide, leaves from gen.Prims plus Go ints/uints/floats of all widths, nil, {}, []; 3/4 of the cases insist on nested containers) given (1) in ~13 Go representations (map[string]interface{}, map[interface{}]interface{}, reflect.StructOf structs with renaming tags / inline struct and map groups / ignored fields / typed nil fields, map[string]T, []T, [N]T, *[N]T, map[string]map, []map, pointers to maps, structs and primitives, pointers to pointers, *Config built from another representation, a Child handle, maps holding *Config or Config values, a per-node random mixture; in the first 3 cases of a run also a top-level Config passed by value), with and without PathSep; (2) unpacked into map[string]interface{} and fed back (canonical equality and VerifWalk structure equality, wiring of every node); (3) in ~4 random partial flattenings into dotted keys with PathSep(\".\") (each dictionary edge folded or nested, sub-trees divided at any depth between several dotted keys and a nested rest, dotted keys inside nested maps, complete lists spelled by numeric positions) each carried by 1-2 of: map, interface-keyed map, typed map, struct tags, mixture; (4) in 2 map-carried duplicate constructions (a: one leaf dotted and nested / two partial spellings of its path; b: dotted key below a primitive defined flat, nested or dotted; c: dotted list position plus the list, flat or nested) embedded in the tree at depth 0-2, each built 40 times with permuted insertion order, and 1 deterministic struct-carried duplicate (same tag twice, inline struct/map vs named field, dotted tag vs nested field, dotted tag below a scalar field; both declaration orders). Non-trivial = tree with >= 2 container levels and >= 3 primitive leaves; distinct = distinct tree."
 }
 
 func (check) Assumptions() []string {
@@ -916,8 +916,9 @@ func (k *kase) representations() {
 		base, err, ok := k.newFrom("building the base *Config from "+from, src, nil)
 		if ok && err == nil {
 			k.checkRep("config("+from+")", base, r.Intn(2) == 0)
-			if k.idx < 8 {
-				// the outcome does not depend on the tree: a handful of cases per run
+			if k.idx < 3 {
+				// the outcome does not depend on the tree: three cases per run
+				// (fewer than the harness' per-batch witness limit)
 				k.checkRep("config-by-value", *base, false)
 			}
 		}
